@@ -626,7 +626,7 @@ def check(ctx) -> Result:
         res.tally(f'formula={case["formula"]}')
         res.tally(f'weight={case["weight"]}')
         res.tally('N=1' if N == 1 else 'N=2-5' if N <= 5 else 'N=6-16' if N <= 16 else 'N=17-40')
-        if len(res.violations) > 5:
+        if len([v for v in res.violations if v.get('where') != WHERE_RETHREAD]) > 5:
             break
     ctx.batch.flush()
     return res
